@@ -51,6 +51,7 @@ const (
 	ErrMsgDuplicateParameter                   = "parameter %s is a duplicate"
 	ErrMsgSubqueryTooManyRecords               = "subquery returns too many records, should return only one record"
 	ErrMsgSubqueryTooManyFields                = "subquery returns too many fields, should return only one field"
+	ErrMsgSubqueryNoFields                     = "subquery returns no fields, should return only one field"
 	ErrMsgJsonQueryTooManyRecords              = "json query returns too many records, should return only one record"
 	ErrMsgLoadJson                             = "json loading error: %s"
 	ErrMsgJsonLinesStructure                   = "json lines must be an array of objects"
@@ -698,6 +699,16 @@ type SubqueryTooManyFieldsError struct {
 func NewSubqueryTooManyFieldsError(expr parser.Subquery) error {
 	return &SubqueryTooManyFieldsError{
 		NewBaseError(expr, ErrMsgSubqueryTooManyFields, ReturnCodeApplicationError, ErrorSubqueryTooManyFields),
+	}
+}
+
+type SubqueryNoFieldsError struct {
+	*BaseError
+}
+
+func NewSubqueryNoFieldsError(expr parser.Subquery) error {
+	return &SubqueryNoFieldsError{
+		NewBaseError(expr, ErrMsgSubqueryNoFields, ReturnCodeApplicationError, ErrorSubqueryNoFields),
 	}
 }
 
